@@ -83,3 +83,37 @@ Theorem C04_refuted_literal_typed_params :
   exists p m, run GenScalar.G p = Ok m /\ Denote.faithfulb p m = false.
 Proof. exists literal_param_program. eexists. split; [vm_compute; reflexivity | vm_compute; reflexivity]. Qed.
 Print Assumptions C04_refuted_literal_typed_params.
+
+(* ---- program level (scalar fragment): the tracer's operation store is a faithful image of the store-free
+   denotation of the program (Spec/Denote.v), for EVERY program built from literals, inputs, random values, the
+   twenty binary operators, ~, to_public, if_else and k + x on which both succeed.  There is a map φ from
+   evaluation events to operation ids such that ([sim], [node_rel], [env_rel] in Proofs/C04Program.v):
+     - every event is recorded as the operation of the same kind / MIR name, with its operands in the written
+       order, an event operand as the image of that event, a literal operand as a Literal operation holding
+       exactly the literal's value and type;
+     - φ is injective and stays below the id counter;
+     - every variable is bound to the image of its denotation: an event's operation (never literal-typed), or a
+       Literal operation holding the exact value of a literal-only expression. *)
+From NadaV.Model Require Import Surface Trace Compile.
+From NadaV.Spec Require Import Denote.
+From NadaV.Proofs Require Import C02Program C04Program.
+
+Theorem C04_scalar_programs_faithful : forall ss f1 f2 ρ s dρ ds,
+  exec GenScalar.G f1 [] ss init_state = Ok (ρ, s) -> dexec f2 [] ss ds0 = Some (dρ, ds) -> scalar_fragment ss = true ->
+  exists φ, sim φ ds s /\ env_rel φ s ρ dρ.
+Proof. exact store_is_a_faithful_image. Qed.
+Print Assumptions C04_scalar_programs_faithful.
+
+Definition c04_example : list stmt :=
+  [SLet "s" (RInput "s" "P0" "" (IScalar (MSecret, BInt))); SLet "u" (RInput "u" "P0" "" (IScalar (MPublic, BInt)));
+   SLet "k" (RLit BInt 2); SLet "j" (RLit BInt 5); SLet "f" (RBin OSub "k" "j");
+   SLet "a" (RBin OSub "u" "f"); SLet "b" (RBin OSub "f" "s"); SLet "c" (RBin OLt "a" "b");
+   SLet "r" (RIfElse "c" "u" "f"); SLet "d" (RToPublic "b"); SLet "e" (RRAdd 7 "r")].
+Example C04_program_nonvacuous :
+  scalar_fragment c04_example = true
+  /\ (exists ρ s, exec GenScalar.G 20 [] c04_example init_state = Ok (ρ, s))
+  /\ (exists dρ ds, dexec 20 [] c04_example ds0 = Some (dρ, ds) /\ List.length (ds_nodes ds) = 8%nat).
+Proof.
+  split; [reflexivity|]. split; [eexists; eexists; vm_compute; reflexivity|].
+  eexists; eexists; split; [vm_compute; reflexivity | reflexivity].
+Qed.
